@@ -840,7 +840,7 @@ func extractMarkers(fset *token.FileSet, root string) (map[string]string, map[st
 
 // extractTemplate: templates/validation.go.tmpl as a flat, whitespace-normalised token list — text between actions with
 // every run of white space collapsed, `{{pipeline}}` for actions, `{{if …}}` / `{{range …}}` / `{{else}}` / `{{end}}` for the
-// control structure (trim markers only affect white space and disappear). Lean compares the list with the statement
+// control structure (trim markers only affect white space and disappear); Go line comments of the emitted text are dropped. Lean compares the list with the statement
 // forms the hand-written model of the template assumes (Gvlean/Gen/Template.lean); any node kind not listed is refused.
 func extractTemplate(root string) []string {
 	path := filepath.Join(root, "internal/analyzers/govalid/templates/validation.go.tmpl")
@@ -857,6 +857,7 @@ func extractTemplate(root string) []string {
 		return nil
 	}
 	var out []string
+	inComment := false
 	var walk func(n parse.Node)
 	walk = func(n parse.Node) {
 		switch n := n.(type) {
@@ -869,12 +870,39 @@ func extractTemplate(root string) []string {
 				walk(c)
 			}
 		case *parse.TextNode:
-			if f := strings.Join(strings.Fields(string(n.Text)), " "); f != "" {
+			// Go line comments of the emitted text carry no behaviour: dropped (a comment may continue through actions into
+			// the next text node — `// ErrNil{{.TypeName}} is returned …` — hence the state)
+			var kept strings.Builder
+			inStr := false
+			txt := string(n.Text)
+			for i := 0; i < len(txt); i++ {
+				c := txt[i]
+				switch {
+				case c == '\n':
+					inComment, inStr = false, false
+					kept.WriteByte(c)
+				case inComment:
+				case c == '"':
+					inStr = !inStr
+					kept.WriteByte(c)
+				case !inStr && c == '/' && i+1 < len(txt) && txt[i+1] == '/':
+					inComment = true
+				default:
+					kept.WriteByte(c)
+				}
+			}
+			if f := strings.Join(strings.Fields(kept.String()), " "); f != "" {
 				out = append(out, f)
 			}
 		case *parse.ActionNode:
+			if inComment {
+				return
+			}
 			out = append(out, "{{"+n.Pipe.String()+"}}")
 		case *parse.IfNode:
+			if inComment {
+				fail(nil, nil, "template: control structure inside a Go line comment")
+			}
 			out = append(out, "{{if "+n.Pipe.String()+"}}")
 			walk(n.List)
 			if n.ElseList != nil {
